@@ -22,6 +22,7 @@ import (
 type Finding struct {
 	View string // decode, writelabelvolume, marshal, value, pointlabels, calcnumlabels, rle, binaryblocks, ...
 	What string
+	Tag  string // optional sub-class of the disagreement (e.g. "maxx-overshoot", "panic")
 }
 
 // Try runs f and converts a panic into text.
@@ -110,12 +111,13 @@ type ViewOpts struct {
 	Light   bool     // skip the slowest views
 	Coord   [3]int32 // block coordinate used for positioned views
 	NoViews bool     // only decode + marshal
+	Focus   []uint64 // labels that must be part of the sparse-volume label sets (e.g. the labels an operation touched)
 }
 
 // CheckCodec compares decode and (un)marshal of block b with the array a.
 func CheckCodec(b *labels.Block, a []uint64, size [3]int) (out []Finding) {
 	add := func(view, format string, args ...interface{}) {
-		out = append(out, Finding{view, fmt.Sprintf(format, args...)})
+		out = append(out, Finding{View: view, What: fmt.Sprintf(format, args...)})
 	}
 	if p := Try(func() {
 		got, gsz := Decode(b)
@@ -205,7 +207,7 @@ func eq16(a, b []uint16) bool {
 // CheckViews compares every direct view of the compressed block b with the naive view of a.
 func CheckViews(b *labels.Block, a []uint64, size [3]int, o ViewOpts) (out []Finding) {
 	add := func(view, format string, args ...interface{}) {
-		out = append(out, Finding{view, fmt.Sprintf(format, args...)})
+		out = append(out, Finding{View: view, What: fmt.Sprintf(format, args...)})
 	}
 	out = append(out, CheckCodec(b, a, size)...)
 	if o.NoViews {
@@ -323,6 +325,22 @@ func CheckViews(b *labels.Block, a []uint64, size [3]int, o ViewOpts) (out []Fin
 		absent = PickNonZero(r)
 	}
 	var sets [][]uint64
+	for i, l := range o.Focus {
+		if l != 0 && i < 2 {
+			sets = append(sets, []uint64{l})
+		}
+	}
+	if len(o.Focus) > 1 {
+		var fs []uint64
+		for _, l := range o.Focus {
+			if l != 0 && len(fs) < 6 {
+				fs = append(fs, l)
+			}
+		}
+		if len(fs) > 1 {
+			sets = append(sets, fs)
+		}
+	}
 	if len(present) > 0 {
 		sets = append(sets, []uint64{present[r.Intn(len(present))]})
 		if !o.Light {
@@ -344,12 +362,8 @@ func CheckViews(b *labels.Block, a []uint64, size [3]int, o ViewOpts) (out []Fin
 	}
 	pbs := []PB{{Coord: o.Coord, A: a, B: b}}
 	for _, set := range sets {
-		for _, f := range CheckRLEs(size, pbs, set, nil) {
-			add(f.View, "%s", f.What)
-		}
-		for _, f := range CheckBinaryBlocks(size, pbs, set) {
-			add(f.View, "%s", f.What)
-		}
+		out = append(out, CheckRLEs(size, pbs, set, nil)...)
+		out = append(out, CheckBinaryBlocks(size, pbs, set)...)
 	}
 	return
 }
@@ -454,14 +468,16 @@ func (c *Clip) bounds() dvid.Bounds {
 // CheckRLEs streams the blocks (in the given order) through labels.WriteRLEs for the label set, parses the
 // 16-byte run records itself and compares the covered voxel set with the naive one.
 func CheckRLEs(size [3]int, pbs []PB, lbls []uint64, clip *Clip) (out []Finding) {
+	tag := ""
 	add := func(format string, args ...interface{}) {
 		if len(out) < 3 {
-			out = append(out, Finding{"rle", fmt.Sprintf("WriteRLEs labels=%v blocks=%s clip=%v: ", lbls, coords(pbs), clip) + fmt.Sprintf(format, args...)})
+			out = append(out, Finding{"rle", fmt.Sprintf("WriteRLEs labels=%v blocks=%s clip=%v: ", lbls, coords(pbs), clip) + fmt.Sprintf(format, args...), tag})
 		}
 	}
 	set := toSet(lbls)
 	raw, err, p := runOutput(positioned(pbs), func(op *labels.OutputOp) { labels.WriteRLEs(set, op, clip.bounds()) })
 	if p != "" {
+		tag = "panic"
 		add("panicked: %s", p)
 		return
 	}
@@ -502,7 +518,7 @@ func CheckRLEs(size [3]int, pbs []PB, lbls []uint64, clip *Clip) (out []Finding)
 			}
 		}
 	}
-	missing, extra, dup := 0, 0, 0
+	missing, extra, dup, beyondMaxX := 0, 0, 0, 0
 	first := ""
 	for bi, pb := range pbs {
 		for li, v := range pb.A {
@@ -522,6 +538,9 @@ func CheckRLEs(size [3]int, pbs []PB, lbls []uint64, clip *Clip) (out []Finding)
 			case !want && c > 0:
 				extra++
 				bad = "is covered by a run but not in the (clipped) label set"
+				if _, in := set[v]; in && clip != nil && gx > clip.Max[0] && gx <= clip.Max[0]|7 && gy >= clip.Min[1] && gy <= clip.Max[1] && gz >= clip.Min[2] && gz <= clip.Max[2] {
+					beyondMaxX++
+				}
 			case c > 1:
 				dup++
 				bad = fmt.Sprintf("is covered by %d runs", c)
@@ -532,6 +551,9 @@ func CheckRLEs(size [3]int, pbs []PB, lbls []uint64, clip *Clip) (out []Finding)
 		}
 	}
 	if first != "" {
+		if missing == 0 && dup == 0 && extra > 0 && extra == beyondMaxX {
+			tag = "maxx-overshoot" // only voxels of the label set between maxx and the end of maxx's 8-voxel sub-block
+		}
 		add("%d runs; %d voxels missing, %d extra, %d covered more than once; first: %s", len(raw)/16, missing, extra, dup, first)
 	}
 	return
@@ -551,12 +573,25 @@ func coords(pbs []PB) string {
 // CheckBinaryBlocks streams the blocks through labels.WriteBinaryBlocks, reads the result back with
 // labels.ReceiveBinaryBlocks (BinaryBlock.Read) and compares the masks with the naive membership mask.
 func CheckBinaryBlocks(size [3]int, pbs []PB, lbls []uint64) (out []Finding) {
-	add := func(format string, args ...interface{}) {
-		if len(out) < 3 {
-			out = append(out, Finding{"binaryblocks", fmt.Sprintf("WriteBinaryBlocks labels=%v blocks=%s: ", lbls, coords(pbs)) + fmt.Sprintf(format, args...)})
+	set := toSet(lbls)
+	// sub-class: a requested label sits in more than one slot of a block's label table (possible after
+	// ReplaceLabel(s) onto a label that is already in the block)
+	tag := ""
+	for _, pb := range pbs {
+		n := map[uint64]int{}
+		for _, l := range pb.B.Labels {
+			if _, ok := set[l]; ok {
+				if n[l]++; n[l] > 1 {
+					tag = "duplicate-label-slots"
+				}
+			}
 		}
 	}
-	set := toSet(lbls)
+	add := func(format string, args ...interface{}) {
+		if len(out) < 3 {
+			out = append(out, Finding{View: "binaryblocks", What: fmt.Sprintf("WriteBinaryBlocks labels=%v blocks=%s: ", lbls, coords(pbs)) + fmt.Sprintf(format, args...), Tag: tag})
+		}
+	}
 	main := lbls[0]
 	raw, err, p := runOutput(positioned(pbs), func(op *labels.OutputOp) { labels.WriteBinaryBlocks(main, set, op, dvid.Bounds{}) })
 	if p != "" {
